@@ -25,7 +25,7 @@ type propCase struct {
 	Verif   int
 }
 
-var poolNames = [cs.PoolSize]string{"genesis", "b0", "b1", "b3", "sub-quorum", "relabel-view-9", "relabel-view-huge", "unknown-block", "repeated-signer", "genesis-view-7", "nil-signature", "b3-signers-relabelled", "b3-resplit", "genesis-with-signature"}
+var poolNames = [cs.PoolSize]string{"genesis", "b0", "b1", "b3", "sub-quorum", "relabel-view-9", "relabel-view-huge", "unknown-block", "repeated-signer", "genesis-view-7", "nil-signature", "b3-signers-relabelled", "b3-resplit", "genesis-with-signature", "b3-other-quorum"}
 
 func proposalProp(c propCase) common.Result {
 	w := cs.GetWorld(c.Scheme, c.N)
@@ -55,7 +55,10 @@ func proposalProp(c propCase) common.Result {
 				panicked, err = true, fmt.Errorf("panic: %v", r)
 			}
 		}()
-		err = auth.VerifyAnyQC(&hotstuff.ProposeMsg{ID: 1, Block: blk, AggregateQC: agg})
+		// several presentations: the verdict may not depend on the order in which the attested certificates are visited
+		for round := 0; round < 6 && err == nil; round++ {
+			err = auth.VerifyAnyQC(&hotstuff.ProposeMsg{ID: 1, Block: blk, AggregateQC: agg})
+		}
 	}()
 	desc := fmt.Sprintf("%s n=%d q=%d cache=%d aggregate-QCs-enabled=%v verifier=%d; block certificate: pool entry %q (valid: %v, certifies a block of view %d); aggregate: %s",
 		c.Scheme, c.N, w.Q, c.Cache, c.AggOn, c.Verif, poolNames[idx], w.PoolValid(idx), cs.PoolBlockView[idx], describeAgg(c.Agg, built))
@@ -171,6 +174,19 @@ func genProposal(rt *rapid.T) propCase {
 		if s.Kind == "aggqc" && rapid.IntRange(0, 4).Draw(rt, "withagg") > 0 {
 			s.Verifier = c.Verif
 			c.Agg = &s
+			if rapid.IntRange(0, 2).Draw(rt, "two-collectors") == 0 {
+				// the replicas learnt the newest certificate from two collectors: same block, different signatures
+				for i := range s.Map {
+					if p := ((s.Map[i].QC % cs.PoolSize) + cs.PoolSize) % cs.PoolSize; p == cs.PoolB3 && i%2 == 1 {
+						s.Map[i].QC = cs.PoolB3Other
+						for k := range s.Entries { // what that replica signed goes along
+							if s.Entries[k].SID == s.Map[i].ID && ((s.Entries[k].SQC%cs.PoolSize)+cs.PoolSize)%cs.PoolSize == cs.PoolB3 {
+								s.Entries[k].SQC = cs.PoolB3Other
+							}
+						}
+					}
+				}
+			}
 		}
 		// the block certificate: mostly one the aggregate attests or its relabelled twin, otherwise any pool entry
 		switch rapid.IntRange(0, 5).Draw(rt, "bq") {
@@ -178,7 +194,7 @@ func genProposal(rt *rapid.T) propCase {
 			best, bv := cs.PoolB3, int64(-1)
 			for _, m := range s.Map {
 				p := ((m.QC % cs.PoolSize) + cs.PoolSize) % cs.PoolSize
-				if int64(cs.PoolBlockView[p]) > bv && (p == cs.PoolGenesis || p == cs.PoolB0 || p == cs.PoolB1 || p == cs.PoolB3) {
+				if int64(cs.PoolBlockView[p]) > bv && (p == cs.PoolGenesis || p == cs.PoolB0 || p == cs.PoolB1 || p == cs.PoolB3 || p == cs.PoolB3Other) {
 					best, bv = p, int64(cs.PoolBlockView[p])
 				}
 			}
